@@ -111,6 +111,18 @@ def cases(tier, seed):
     out.append({'k': 'blif', 'text': t, 'K': 1, 'tag': 'cover:empty-with-inputs'})
     t = '.model top\n.inputs a b\n.outputs y\n.names a y\n.end\n'
     out.append({'k': 'blif', 'text': t, 'K': 1, 'tag': 'cover:empty-with-one-input'})
+    # the order of the lines is free: a plain buffer cover defined after the gates, latches and sub-circuits that read it
+    t = ('.model top\n.inputs clk a b\n.outputs y q z\n.names n b y\n11 1\n.latch n q re clk 0\n.subckt inv i=n o=z\n.names a n\n1 1\n.end\n'
+         '.model inv\n.inputs i\n.outputs o\n.names i o\n0 1\n.end\n')
+    out.append({'k': 'blif', 'text': t, 'K': 3, 'tag': 'order:buffer-after-readers'})
+    t = '.model top\n.inputs a b\n.outputs y\n.names m b y\n11 1\n.names n m\n1 1\n.names a n\n1 1\n.end\n'
+    out.append({'k': 'blif', 'text': t, 'K': 1, 'tag': 'order:buffer-chain-after-reader'})
+    # the bits of a vector port need not be listed next to each other
+    for merge in (True, False):
+        t = ('.model top\n.inputs x[0] y[0] x[1] y[1] c\n.outputs lo[0] hi[0] lo[1] s[0] hi[1] cout s[1]\n'
+             '.names x[0] y[0] lo[0]\n11 1\n.names x[1] y[1] lo[1]\n11 1\n.names x[0] y[1] hi[0]\n1- 1\n-1 1\n.names x[1] y[0] hi[1]\n10 1\n01 1\n'
+             '.names x[0] c s[0]\n10 1\n01 1\n.names x[1] c s[1]\n11 1\n.names y[0] y[1] cout\n11 1\n.end\n')
+        out.append({'k': 'blif', 'text': t, 'K': 1, 'merge': merge, 'tag': 'vector:interleaved-bits'})
     # several latches fed by the same next-state signal, with different initial values
     for inits in (('0', '1'), ('1', '0'), ('1', '2', '0'), ('', '1'), ('3', '1', '1')):
         qs = ['q%d' % i for i in range(len(inits))]
